@@ -56,6 +56,12 @@ impl<T> Obs<T> {
 }
 
 static CALL_SEQ: AtomicU64 = AtomicU64::new(0);
+static MAX_CALL_US: AtomicU64 = AtomicU64::new(0);
+
+/// longest single observed call of this process, in microseconds
+pub fn max_call_us() -> u64 {
+    MAX_CALL_US.load(Ordering::Relaxed)
+}
 static CALL_START_MS: AtomicU64 = AtomicU64::new(0);
 static EPOCH: std::sync::OnceLock<Instant> = std::sync::OnceLock::new();
 
@@ -68,8 +74,13 @@ pub fn observe<T>(f: impl FnOnce() -> T) -> Obs<T> {
     install_panic_hook();
     CALL_SEQ.fetch_add(1, Ordering::Relaxed);
     CALL_START_MS.store(now_ms(), Ordering::Relaxed);
+    let t0 = Instant::now();
     let r = catch_unwind(AssertUnwindSafe(f));
     CALL_START_MS.store(0, Ordering::Relaxed);
+    let us = t0.elapsed().as_micros() as u64;
+    if us > MAX_CALL_US.load(Ordering::Relaxed) {
+        MAX_CALL_US.store(us, Ordering::Relaxed);
+    }
     match r {
         Ok(v) => Obs::Ret(v),
         Err(_) => {
